@@ -1,4 +1,5 @@
 import HawkModel.ReadIo
+import HawkModel.ReadIoStack
 import HawkModel.Drv.Util
 /-! driver for the readio area.
 
@@ -8,12 +9,14 @@ One case per line:   `KIND MODE FILE*`
         the single FILE (one output line per chunking, mask order), `B`/`Y` = `C`/`X` read as bytes
         (hawk_rtx_readiobytes: the same model), `W` instability witness search for a regex RS over the prefixes of FILE.
 * MODE  `D` | `S<hex of one character, UTF-8>` | `P0` | `P1` | `R<hex of RS>:<ast>`, ast = prefix tokens joined by `,`:
-        `.` seq, `|` alt, `?` opt, `+` plus, `$` eol, `c<hh>` character
+        `.` seq, `|` alt, `?` opt, `+` plus, `$` eol, `a` any character, `c<hh>` character
+        | `H<op>;<op>;…[!<hex text>:<ast>]*` a history of assignments to RS, FS, CONVFMT, IGNORECASE (harness/readio_h.c):
+        the mode is the one `selRead` / `selReadBytes` of the model select after it
 * FILE  `<name>=<hex of the file's bytes (UTF-8)>/<cut positions joined by ,>`   (name may be empty: stdin)
         kinds C, X, F, P, Z see the characters (bytes decoded as UTF-8; records printed as UTF-8), kinds B, Y, G, Q
-        (getbline) see the bytes; F, G (std.c over real files) and P, Q, Z (std.c + sio/tio over a pipe fed in byte
-        chunks) are run without cuts — the chunking below the console handler is not the model's business, the theorems
-        say it does not matter; Z prints the same line once per byte chunking.
+        (getbline) see the bytes; for F, G (std.c over real files: one piece per file) and P, Q, Z (std.c + sio/tio over a
+        pipe fed in the given byte pieces) the chunks the record reader receives are computed with the tio model
+        (`stdStream` / `stdByteStream`, HawkModel/ReadIoStack.lean), so in.pos/len/eof are comparable there too.
 * MODE may carry a program, `<mode>@<letter><k>` (nextfile, getline, a side stream with close(): see harness/readio_h.c);
         the FILE named `side` is the side stream, words `%a` / `%e` (ARGV entries that are no files) are skipped.
 Output: `r<nr>:<fnr>:<filename>:<hex rec>:<pos>:<len>:<eof>` per record (`r0:<n>:side:…` for a side record, with the
@@ -31,6 +34,7 @@ inductive Re where
   | opt (a : Re)
   | plus (a : Re)
   | eol
+  | any
 deriving Repr
 
 def insertNat (x : Nat) (l : List Nat) : List Nat := if l.contains x then l else x :: l
@@ -51,6 +55,7 @@ def Re.ends (t : Array Char) : Re → Nat → List Nat
   | .opt a, i => insertNat i (a.ends t i)
   | .plus a, i => let s := a.ends t i; iter (a.ends t) t.size s s
   | .eol, i => if i = t.size then [i] else []
+  | .any, i => if i < t.size then [i + 1] else []
 
 /-- leftmost-longest match -/
 def Re.matchAt (r : Re) (t : Array Char) : Nat → Nat → Option (Nat × Nat)
@@ -112,6 +117,7 @@ partial def parseRe : List String → Option (Re × List String)
     else if t == "?" then do let (a, r) ← parseRe r; pure (.opt a, r)
     else if t == "+" then do let (a, r) ← parseRe r; pure (.plus a, r)
     else if t == "$" then some (.eol, r)
+    else if t == "a" then some (.any, r)
     else match t.toList with
       | 'c' :: h => match unhex h with
         | [c] => some (.chr c, r)
@@ -133,6 +139,78 @@ def parseMode (s : String) : Option Mode :=
       | _ => none
     | _ => none
   | _ => none
+
+/-- the expression compiled with REG_ICASE -/
+def Re.icase : Re → Re
+  | .chr c => if c.toLower != c.toUpper then .alt (.chr c.toLower) (.chr c.toUpper) else .chr c
+  | .seq a b => .seq a.icase b.icase
+  | .alt a b => .alt a.icase b.icase
+  | .opt a => .opt a.icase
+  | .plus a => .plus a.icase
+  | .eol => .eol
+  | .any => .any
+
+/-- a value of a history word (see harness/readio_h.c): its text under a CONVFMT -/
+def parseVal (w : List Char) : Option Val :=
+  match w with
+  | ['n'] => some nilVal
+  | 'd' :: rest =>
+    match (String.ofList rest).splitOn "~" with
+    | lit :: entries =>
+      let tab : List (List Char × List Nat) := entries.filterMap fun e =>
+        match e.splitOn "-" with
+        | [f, t] => some (unhex f.toList, unhexBytes t.toList)
+        | _ => none
+      let look (f : List Char) : List Nat := match tab.find? (fun p => p.1 == f) with
+        | some p => p.2
+        | none => unhexBytes lit.toList
+      some ⟨false, fun f => utf8Dec (look f), look⟩
+    | [] => none
+  | c :: h =>
+    if c == 's' || c == 'b' || c == 'k' || c == 'i' then
+      let bs := unhexBytes h
+      some ⟨false, fun _ => utf8Dec bs, fun _ => bs⟩
+    else none
+  | [] => none
+
+def parseOp (w : String) : Option SepOp :=
+  match w.toList with
+  | 'c' :: h => some (.convfmt (unhex h))
+  | ['g', d] => some (.ignorecase (d == '1'))
+  | ['R'] => some .sameRS
+  | ['F'] => some .sameFS
+  | 'r' :: v => (parseVal v).map .setRS
+  | 'f' :: v => (parseVal v).map .setFS
+  | _ => none
+
+/-- `H<op>;<op>;…[!<hex text>:<ast>]*`: the mode the model's reader selects after the history -/
+def parseHist (raw : Bool) (s : String) : Option Mode :=
+  match (String.ofList (s.toList.drop 1)).splitOn "!" with
+  | opsS :: tabS =>
+    let tab : List (List Char × Re) := tabS.filterMap fun e =>
+      match e.splitOn ":" with
+      | [t, ast] => match parseRe (ast.splitOn ",") with
+        | some (re, []) => some (unhex t.toList, re)
+        | _ => none
+      | _ => none
+    let mk (src : List Char) (ic : Bool) : Matcher :=
+      match tab.find? (fun p => p.1 == src) with
+      | some p => (if ic then p.2.icase else p.2).matcher
+      | none => fun _ => none
+    match ((opsS.splitOn ";").filter (· != "")).mapM parseOp with
+    | some ops =>
+      let e := env0.run (fun _ => true) ops
+      let sel : Sel Char := if raw then
+          match selReadBytes e with
+          | .dflt => .dflt
+          | .para => .para
+          | .single b => .single (Char.ofNat b)
+          | .regex src ic => .regex src ic
+          | .crash => .crash
+        else selRead e
+      sel.toMode mk false
+    | none => none
+  | [] => none
 
 /-- cut `s` at the given (increasing) positions -/
 def chunkAt (s : List Char) (cuts : List Nat) : Stream :=
@@ -238,11 +316,25 @@ partial def runProg (hx : List Char → String) (mode : Mode) (pg : Prog) (ps : 
       runProg hx mode pg ps
     | _ => runProg hx mode pg ps
 
-def runCase (hx : List Char → String) (mode : Mode) (pg : Prog) (files : List (String × List Char × List Nat)) : String :=
-  let fs := files.map fun (n, s, cuts) => (n, chunkAt s cuts)
+/-- the files as streams of chunks -/
+def runCaseS (hx : List Char → String) (mode : Mode) (pg : Prog) (fs : List (String × Stream)) : String :=
   let side := match fs.find? (fun f => f.1 == "side") with | some f => f.2 | none => []
   let cons := fs.filter fun f => f.1 != "side"
   " ".intercalate (runProg hx mode pg { con := mkConsole cons, sideCur := side, sideFull := side })
+
+def runCase (hx : List Char → String) (mode : Mode) (pg : Prog) (files : List (String × List Char × List Nat)) : String :=
+  runCaseS hx mode pg (files.map fun (n, s, cuts) => (n, chunkAt s cuts))
+
+/-- the bytes of a file in the pieces in which `read(2)` delivers them: cut at the given byte positions -/
+def bytePieces (bs : List Nat) (cuts : List Nat) : List (List UInt8) :=
+  (chunkAt (rawChars bs) cuts).map fun c => c.map fun ch => ch.toNat.toUInt8
+
+/-- std kinds: the chunks the record reader receives are those `hawk_tio_readuchars` / `hawk_tio_readbchars` return (HawkModel/ReadIoStack.lean);
+`piped` tells which file arrives through the pipe in the given pieces, the others are real files (one piece, cut by tio's room) -/
+def stdFiles (raw : Bool) (piped : String → Bool) (bf : List (String × List Nat × List Nat)) : List (String × Stream) :=
+  bf.map fun (n, bs, cuts) =>
+    let pieces := bytePieces bs (if piped n then cuts else [])
+    (n, if raw then stdByteStream pieces else stdStream pieces)
 
 def cutsOfMask (n mask : Nat) : List Nat :=
   (List.range (n - 1)).filterMap fun k => if mask.testBit k then some (k + 1) else none
@@ -276,10 +368,10 @@ def step (_ : Unit) (line : String) : Unit × String :=
       | _ => (modeProg, ({} : Prog))
     -- `%a` (an assignment in ARGV) and `%e` (an empty ARGV entry) are no files
     let fileWs := fileWs0.filter fun w => !w.startsWith "%"
-    match parseMode modeS, fileWs.mapM parseFile with
+    -- byte kinds (getbline) see the bytes, the others the decoded characters
+    let raw := kind == "B" || kind == "Y" || kind == "G" || kind == "Q"
+    match (if modeS.startsWith "H" then parseHist raw modeS else parseMode modeS), fileWs.mapM parseFile with
     | some mode, some bfiles =>
-      -- byte kinds (getbline) see the bytes, the others the decoded characters
-      let raw := kind == "B" || kind == "Y" || kind == "G" || kind == "Q"
       let hx := if raw then hexRaw else hex
       -- below the std.c console handler the chunking is sio's: the model is run without cuts
       let nocuts := kind == "F" || kind == "G" || kind == "P" || kind == "Q" || kind == "Z"
@@ -300,10 +392,17 @@ def step (_ : Unit) (line : String) : Unit × String :=
         | _ => ((), "bad-case")
       else if kind == "Z" then
         match bfiles with
-        | (_, bs, _) :: _ =>
-          let o := runCase hx mode pg files
-          ((), "\n".intercalate ((List.range (2 ^ (bs.length - 1))).map fun mask => s!"m{mask} " ++ o))
+        | (name, bs, _) :: more =>
+          let outs := (List.range (2 ^ (bs.length - 1))).map fun mask =>
+            s!"m{mask} " ++ runCaseS hx mode pg (stdFiles raw (· == name) ((name, bs, cutsOfMask bs.length mask) :: more))
+          ((), "\n".intercalate outs)
         | _ => ((), "bad-case")
+      else if kind == "P" || kind == "Q" then
+        -- the single console stream is standard input, fed through the pipe in the given pieces
+        let cons := match bfiles.find? (fun f => f.1 != "side") with | some f => f.1 | none => ""
+        ((), runCaseS hx mode pg (stdFiles raw (· == cons) bfiles))
+      else if kind == "F" || kind == "G" then
+        ((), runCaseS hx mode pg (stdFiles raw (· == "-") bfiles))
       else if kind == "W" then
         match mode, files with
         | .regex m, [(_, s, _)] => ((), witness m s)
